@@ -871,14 +871,14 @@ func spawnAll(r *ev.Run, id string, vecs []Vec) {
 			defer wg.Done()
 			defer func() { <-sem }()
 			b, _ := json.Marshal(v)
-			res := reg.Spawn(r, id, 2*time.Minute, string(b))
+			res := reg.Spawn(r, id, 5*time.Minute, string(b))
 			if res.Died || res.Hung {
 				what := "died"
 				if res.Hung {
-					what = "hung (killed after 2 min)"
+					what = "hung (one configuration normally takes well under a second; killed after 5 min, twice)"
 				}
 				// confirm alone before reporting
-				res2 := reg.Spawn(ev.New(id, r.Tier, "exploration"), id, 2*time.Minute, string(b))
+				res2 := reg.Spawn(ev.New(id, r.Tier, "exploration"), id, 5*time.Minute, string(b))
 				if res2.Died || res2.Hung {
 					r.Violate(id+"/"+v.Plugin+"/process-"+strings.Fields(what)[0], fmt.Sprintf("worker for %s v%d %q %s: %s", v.Plugin, v.Proto, v.Args, what, lastLines(res2.Output)), Case{Vec: v})
 				}
@@ -920,7 +920,7 @@ func replay(r *ev.Run, id string, raw json.RawMessage) {
 		return
 	}
 	b, _ := json.Marshal(c.Vec)
-	res := reg.Spawn(r, id, 2*time.Minute, string(b))
+	res := reg.Spawn(r, id, 5*time.Minute, string(b))
 	if res.Died || res.Hung {
 		r.Violate(id+"/"+c.Vec.Plugin+"/process-died", lastLines(res.Output), c)
 	}
